@@ -21,7 +21,7 @@ ASSUMPTIONS = [
     "in-process pairs: 'the main thread' is the thread that runs WorkerGateway.serve()",
 ]
 MINIMUM = {"histories": 60, "bodies_run": 150, "overlap_rejections": 10, "sweep_fired": 20}
-SHARD_TIMEOUT = {"quick": 240, "thorough": 3000}
+SHARD_TIMEOUT = {"quick": 150, "thorough": 3000}
 
 OUTCOMES = ["return", "raise", "sysexit", "kbi", "blocked"]
 DEADLOCK_TEXT = "concurrent remote_exec would cause deadlock for main_thread_only execmodel"
